@@ -39,6 +39,7 @@ class Report:
         self.root = root
         self.t0 = time.time()
         self.obligations = []
+        self._seen = set()
         self.infos = []
         self.counts = {}
         self.units = {}
@@ -59,10 +60,15 @@ class Report:
 
     def ob(self, rule, construct, where, ok, detail, statement=None, **extra):
         o = Obligation(rule, construct, where, bool(ok), detail, statement, extra)
+        if (o.key(), o.ok) in self._seen:
+            return o
+        self._seen.add((o.key(), o.ok))
         self.obligations.append(o)
         return o
 
     def info(self, msg):
+        if msg in self.infos:
+            return
         self.infos.append(msg)
         if not self.quiet:
             print('INFO', msg)
